@@ -221,7 +221,7 @@ func (C03) Run(tp *tape.Tape) core.Result {
 			}
 			desc := ""
 			var call string
-			switch tp.Draw(9) {
+			switch tp.Draw(11) {
 			case 0: // same call again at depth 1
 				call, desc = "write("+p0+"())", "again, call depth 1"
 				depthsSeen[1] = true
@@ -292,6 +292,24 @@ func (C03) Run(tp *tape.Tape) core.Result {
 				}
 				call, desc = "write("+n+"())", "computed inside a resumed generator and yielded"
 				r.Inc("place.yielded_value", 1)
+			case 9, 10: // work between creating a closure and calling it (probes that bind a closure first)
+				if len(pr.lines) != 2 {
+					continue
+				}
+				mid := []string{
+					"for ma <- fromto(0, 3) {\nmb = ma\n}",
+					"for ma, mb <- fromto(0, 4), fromto(7, 9) {\nmc = ma + mb\n}",
+					"md = deep(200)",
+					"for ma <- fromto(0, 2) {\nfor mb <- fromto(0, 2) {\nmc = ma * mb\n}\n}",
+					"me = 0\nfor ma <- fromto(0, 3) {\nme = me + deep(ma)\n}",
+				}[tp.Draw(5)]
+				n := newName()
+				if _, stop := submit(n+" = () -> "+gen.Block([]string{pr.lines[0], mid, pr.lines[1], "r"}), 0); stop {
+					goto done
+				}
+				g.NeedDeep = true
+				call, desc = "write("+n+"())", "with other loops and calls between creating the closure and calling it"
+				r.Inc("place.work_between_closure_creation_and_call", 1)
 			case 7: // after a small loop in the same statement (a context to recycle)
 				call = "{\nfor hq <- fromto(0, 2) {\nhs = hq\n}\nwrite(" + p0 + "())\n}"
 				desc = "after a small loop in the same statement"
